@@ -24,6 +24,14 @@ CHECKS = {
         note='Metamorphic: the reference is the same implementation run afresh, so a defect that affects stepping and re-stepping identically is invisible here (C01 covers stepping). '
              'Histories are cut at the first failing step (outside the stated domain). Two genuine defects were repaired by fix: commits.',
         design='5/C04'),
+    'C05': dict(
+        technique='differential property-based testing (Hypothesis) against an independent BIP341 implementation, with constructed node orderings and single-field corruptions',
+        text='(control block, script, program) triples are built by an independent TapLeaf/TapBranch/TapTweak implementation with its own secp256k1 arithmetic: path lengths 0..128, both parities, all '
+             'leaf versions, nodes equal to / just below / just above the running hash, internal keys on and off the curve, scripts across the compact-size boundary; each may carry one of eleven '
+             'single-field corruptions. TaprootCommitmentEnv is iterated to Done/Failed: the leaf hash, every intermediate hash and the verdict must equal the reference. Control-block size validation '
+             '(33+32m, m<=128) and the hand-over of the leaf hash into execution are checked through spend sessions.',
+        note='Trusts vf/ref/secp.py + vf/ref/verify.py (validated against the real-chain taproot pairs and BIP340 vector 0).',
+        design='5/C05'),
     'C07': dict(
         technique='grammar-based property-based testing (Hypothesis) against an executable token->bytes model, plus exhaustive enumeration of all 1- and 2-byte hex literals',
         text='Token sequences drawn from the documented btcc grammar (names with/without OP_, OP_xNN, int64 decimals, hex literals of every length class, brackets to depth 8 with '
